@@ -1683,7 +1683,7 @@ void emitNormal(vh::Sink& sink, vh::Rng& r, int maxn) {
 // layers is reported as a property violation under the key `grid.tops.gap_ignored` (the real grid
 // stacks the lower layer on the upper one; see design.d/C13.md, finding 11).  Off until the main
 // session records the finding; the counters `tops.gap_ignored*` in prop_stats.json are always kept.
-constexpr bool kReportTopsGap = false;
+constexpr bool kReportTopsGap = true;
 
 void propTops(vh::PropLog& log, std::map<std::string, long>& st, vh::Rng& r, int maxn, bool& gapReported) {
     TopsCase c = genTops(r, maxn, true, true);
